@@ -65,6 +65,7 @@ type loopInfo struct {
 }
 
 type FuncVC struct {
+	inDryRun bool
 	closedSeen map[string]bool // heap-closedness facts already emitted for (cell read, state)
 	P     *Program
 	e     *Enc
@@ -199,8 +200,17 @@ func (fv *FuncVC) obligeAt(guard Term, kind, label string, props []string, goal 
 	fv.obls = append(fv.obls, &Obligation{Name: name, Kind: kind, Props: props, Func: fv.name, Pos: fv.posOf(pos), Desc: desc, Guard: guard, Goal: goal, fv: fv, Bounded: bounded, Splits: splits, SplitBlk: splitBlk, Blk: blk})
 }
 
+// unsupp: an instruction outside the verified subset. It is not an error as long as it cannot be reached under the
+// function's preconditions and assumptions: that becomes an obligation of its own (kind "unsupported", goal false
+// under the path condition). The values it defines are left unconstrained.
 func (fv *FuncVC) unsupp(format string, a ...interface{}) {
-	fv.unsupported = append(fv.unsupported, fmt.Sprintf(format, a...))
+	msg := fmt.Sprintf(format, a...)
+	if fv.curBlock == nil || fv.inDryRun {
+		fv.unsupported = append(fv.unsupported, msg)
+		return
+	}
+	fv.oblige("unsupported", "unsupported", append(append([]string{}, frameProps...), panicProps...), "false", token.NoPos,
+		"instruction outside the verified subset is unreachable under the contract's assumptions: "+msg)
 }
 
 // ---------- values ----------
